@@ -154,6 +154,19 @@ pub fn run(ctx: &Ctx) {
                             None => {}
                         }
                     }
+                    // every strict prefix of the frame (truncation inside payload or checksum) must be rejected
+                    if want.len() <= 300 {
+                        for cut in 0..want.len() {
+                            dec_calls.fetch_add(1, Ordering::Relaxed);
+                            match compare(ctx, *a, s, &want[..cut], order | 3, Some("truncated frame")) {
+                                Some(true) => {}
+                                Some(false) => {
+                                    rejected.fetch_add(1, Ordering::Relaxed);
+                                }
+                                None => {}
+                            }
+                        }
+                    }
                     // every single-bit flip of the frame
                     if want.len() <= 40 {
                         for bit in 0..want.len() * 8 {
